@@ -13,6 +13,7 @@ import asyncio
 
 from harness import Query, enc_bool, enc_list, enc_msg, enc_opt, enc_str, msg_view
 import comp_codec
+import peek
 
 NAME = "dev"
 
@@ -71,6 +72,7 @@ def make_class(defn, log, tasklog, bases=None):
     from indi.device import Driver, events, properties
 
     dct = {"name": defn["name"]}
+    recorded = {}
     for g in defn["groups"]:
         vectors = {}
         for v in g["vectors"]:
@@ -91,15 +93,18 @@ def make_class(defn, log, tasklog, bases=None):
                 if "refresh" in e:
                     el.attach_event_handler(events.Read, make_refresh(py_value(e["refresh"])))
                 elements[e["key"]] = el
+                recorded[(g["key"], v["key"], e["key"])] = el
             kw = {"label": v.get("label"), "state": v.get("state", "Ok"), "enabled": v.get("enabled", True), "elements": elements}
             if v["kind"] != "light":
                 kw["perm"] = v.get("perm", "rw")
                 kw["timeout"] = v.get("timeout", 0)
             if v["kind"] == "switch":
                 kw["rule"] = v.get("rule", "OneOfMany")
-            vectors[v["key"]] = getattr(properties, vcls_name)(v["name"], **kw)
-        dct[g["key"]] = properties.Group(g["name"], enabled=g.get("enabled", True), vectors=vectors)
-    return type("Dev_" + defn["name"], tuple(bases or (Driver,)), dct)
+            vectors[v["key"]] = recorded[(g["key"], v["key"])] = getattr(properties, vcls_name)(v["name"], **kw)
+        dct[g["key"]] = recorded[(g["key"],)] = properties.Group(g["name"], enabled=g.get("enabled", True), vectors=vectors)
+    cls = type("Dev_" + defn["name"], tuple(bases or (Driver,)), dct)
+    cls._peek_defs = recorded        # the definitions by key path (tools/peek.py falls back on them)
+    return cls
 
 
 def make_handler(h, kind, log, tasklog):
@@ -117,7 +122,7 @@ def make_handler(h, kind, log, tasklog):
         return ahandler
 
     def handler(event):
-        log.append(record(event, enc_value(event.element._value)))
+        log.append(record(event, enc_value(peek.raw_value(event.element))))
         if veto:
             event.prevent_default = True
     return handler
@@ -133,43 +138,43 @@ def enc_device(d, defn):
     """Lean encoding of the *live* driver (definitions as the library resolved them)"""
     gs = []
     for gdef in defn["groups"]:
-        g = d._groups[gdef["key"]]
+        g = peek.group(d, gdef["key"])
         vs = []
         for vdef in gdef["vectors"]:
-            v = g._vectors[vdef["key"]]
+            v = peek.vector(g, vdef["key"])
             es = []
             for edef in vdef["elements"]:
-                e = v._elements[edef["key"]]
-                ed = e._definition
+                e = peek.element(v, edef["key"])
+                ed = peek.element_definition(e, d, (gdef["key"], vdef["key"], edef["key"]))
                 num = vdef["kind"] == "number"
                 es.append("L %s %s %s %s %s %s %s %s %s %s %s" % (
                     enc_str(ed.name), enc_str(str(ed.label)),
                     enc_str(ed.format if num else ""), enc_str(str(ed.min) if num else ""), enc_str(str(ed.max) if num else ""),
-                    enc_str(str(ed.step) if num else ""), enc_value(e._value), enc_bool(e._enabled),
+                    enc_str(str(ed.step) if num else ""), enc_value(peek.raw_value(e)), enc_bool(peek.element_enabled(e)),
                     enc_list(lambda h: "%d %s %s" % (h["id"], enc_bool(h.get("async", False)), enc_bool(h.get("veto", False))), edef.get("write", [])),
                     enc_list(lambda h: "%d %s" % (h["id"], enc_bool(h.get("async", False))), edef.get("change", [])),
                     enc_jvalue(edef["refresh"]) if "refresh" in edef else "~~"))
-            vd = v._definition
+            vd = peek.vector_definition(d, v, gdef["key"], vdef["key"])
             light = vdef["kind"] == "light"
             vs.append("V %s %s %s %s %s %s %s %s %s" % (
                 enc_str(vd.name), enc_str(str(vd.label)), vdef["kind"],
                 "~" if light else enc_str(str(vd.perm)), "~" if light else enc_str(str(vd.timeout)),
-                vd.rule if vdef["kind"] == "switch" else "~", enc_str(v._state), enc_bool(v._enabled), enc_list(lambda x: x, es)))
-        gs.append("G %s %s %s" % (enc_str(g._definition.name), enc_bool(g._enabled), enc_list(lambda x: x, vs)))
+                vd.rule if vdef["kind"] == "switch" else "~", enc_str(peek.vector_state(v)), enc_bool(peek.vector_enabled(v)), enc_list(lambda x: x, es)))
+        gs.append("G %s %s %s" % (enc_str(peek.group_definition(d, g, gdef["key"]).name), enc_bool(peek.group_enabled(g)), enc_list(lambda x: x, vs)))
     return "DEV %s %s" % (enc_str(d.name), enc_list(lambda x: x, gs))
 
 
 def enc_state(d, defn):
     out = []
     for gdef in defn["groups"]:
-        g = d._groups[gdef["key"]]
-        out.append("g" + enc_bool(g._enabled))
+        g = peek.group(d, gdef["key"])
+        out.append("g" + enc_bool(peek.group_enabled(g)))
         for vdef in gdef["vectors"]:
-            v = g._vectors[vdef["key"]]
-            out.append("v" + enc_bool(v._enabled) + " " + enc_str(v._state))
+            v = peek.vector(g, vdef["key"])
+            out.append("v" + enc_bool(peek.vector_enabled(v)) + " " + enc_str(peek.vector_state(v)))
             for edef in vdef["elements"]:
-                e = v._elements[edef["key"]]
-                out.append("e" + enc_bool(e._enabled) + " " + enc_value(e._value))
+                e = peek.element(v, edef["key"])
+                out.append("e" + enc_bool(peek.element_enabled(e)) + " " + enc_value(peek.raw_value(e)))
     return " ".join(out)
 
 
@@ -206,17 +211,17 @@ def apply_op(d, defn, op):
     gkeys = [g["key"] for g in defn["groups"]]
 
     def vec(gi, vi):
-        g = d._groups[gkeys[gi]]
-        return g._vectors[defn["groups"][gi]["vectors"][vi]["key"]]
+        g = peek.group(d, gkeys[gi])
+        return peek.vector(g, defn["groups"][gi]["vectors"][vi]["key"])
 
     def elem(gi, vi, ei):
-        return vec(gi, vi)._elements[defn["groups"][gi]["vectors"][vi]["elements"][ei]["key"]]
+        return peek.element(vec(gi, vi), defn["groups"][gi]["vectors"][vi]["elements"][ei]["key"])
 
     def value_for(el, spec):
         # "reuse": the driver keeps ONE values.BLOB object per element (a frame buffer), refills it and publishes it again
         from indi.device import values
-        if isinstance(spec, dict) and spec.get("reuse") and "b" in spec and isinstance(el._value, values.BLOB):
-            cur = el._value
+        if isinstance(spec, dict) and spec.get("reuse") and "b" in spec and isinstance(peek.raw_value(el), values.BLOB):
+            cur = peek.raw_value(el)
             cur.binary = bytes.fromhex(spec["b"])
             cur.format = spec.get("fmt")
             return cur
@@ -233,7 +238,7 @@ def apply_op(d, defn, op):
     elif op[0] == "ev":
         vec(op[1], op[2]).enabled = op[3]
     elif op[0] == "eg":
-        d._groups[gkeys[op[1]]].enabled = op[2]
+        peek.group(d, gkeys[op[1]]).enabled = op[2]
     elif op[0] == "ee":
         elem(op[1], op[2], op[3]).enabled = op[4]
     elif op[0] == "c":
